@@ -209,6 +209,26 @@ def run(tier: str) -> int:
             rep.count(json.dumps(rec), nontrivial=rec["kind"] == "step" and len(set(rec["emitted"])) > 1)
     finally:
         shutil.rmtree(tmp, ignore_errors=True)
+    # ---- (2b) weights changed DURING a step (between two cycles, through the step generator): a slot is filled
+    #           with the weights current at that moment (yield_moves documents that the weights are re-read per move)
+    for k in range(8 if tier == "quick" else 60):
+        cycles = int(rs.randint(6, 16))
+        mc = make_mc(cycles, int(rs.randint(1, 2**31)))
+        for nm in ("a", "b", "c"):
+            mc.add_move(Never(), criteria=Yes(), name=nm, interval=1, probability=1.0, minimum_count=0)
+        cut = int(rs.randint(1, cycles - 2))
+        off = ("a", "b", "c")[k % 3]
+        rep.count(("midstep", k))
+        bad_at = None
+        for stepgen in mc.irun(3):
+            for slot, name in enumerate(stepgen):
+                if slot == cut:
+                    mc.moves[off].probability = 0.0
+                if slot > cut and str(name) == off:
+                    bad_at = slot
+            mc.moves[off].probability = 1.0
+        if bad_at is not None:
+            rep.violation("weight-changed-mid-step-ignored", f"move '{off}' was given weight 0 after slot {cut} of a step but was still chosen freely in slot {bad_at} of the same step ({cycles} cycles)", {"cycles": cycles, "cut": cut})
     # ---- (3) distribution: free slots proportional to weight, independent; forced slots uniform ----------
     nd = 6 if tier == "quick" else 30
     worst = 0.0
